@@ -142,6 +142,32 @@ def run(facts, R):
                     for _, v in (split_rows(s, d[1], d[2], d[3]) or [({}, s.rvalue(d[3]))]):
                         okp = okp and v[0] == "agg" and (v[2] == "None" or (v[2] == "Some" and "as Ok" in render(v) and
                                                                             ("try_acquire_owned" in render(v) or (mapped_acq and any(x[0] == "call" and len(x) > 3 and x[3] == acq[0][0] for x in walk(v))))))
+        if not okp:
+            # the permit may travel inside a small struct (`slot = Slot { permit: Some(p), .. }`) or through temporaries several
+            # paths assign: enumerate what each capture can hold at the point the closure is built
+            from analysis.sym import split_eval
+            cdef = None
+            for x_, y_, cs_ in b.assigns():
+                if cs_["rv"].get("agg") == "closure" and cs_["rv"].get("def") == worker.path and x_ in b.live_blocks():
+                    cdef = (x_, y_, cs_["rv"])
+
+            def _permit_like(v):
+                if v[0] == "agg" and v[2] == "None" and v[1].endswith("Option"):
+                    return "none"
+                if v[0] == "agg" and v[2] == "Some" and "as Ok" in render(v) and "try_acquire_owned" in render(v):
+                    return "some"
+                return None
+            if cdef is not None:
+                for op in cdef[2]["ops"]:
+                    alts = split_eval(s, cdef[0], cdef[1], lambda v_, op=op: v_.op(op)) or []
+                    vals = [v for _, v in alts]
+                    if not any("try_acquire_owned" in render(v) for v in vals):
+                        continue
+                    good = True
+                    for v in vals:
+                        kinds = [_permit_like(v)] if _permit_like(v) else [_permit_like(fv) for _, fv in v[3]] if v[0] == "agg" else [None]
+                        good = good and any(k in ("none", "some") for k in kinds)
+                    okp = good and bool(vals)
         R.check(okp, "permit-before-spawn", b.path, "closure captures the acquired permit", "closure captures permit = %s" % (render_n(pl) if pl else None), st.get("span"), "Some(permit from try_acquire_owned) | None")
     else:
         R.bad("permit-before-spawn", b.path, "spawned-closure", "spawn_blocking argument is not a local closure", st.get("span"))
